@@ -91,4 +91,28 @@ for `tainted<T[N]>`, guest element size for `tainted_volatile<T[N]>`) -/
 def indexArr (idx : IntTy) (v : Int) (n stride base : Nat) : Option Nat :=
   if indexOk idx v n then some (base + v.toNat * stride) else none
 
+/-- extent product of the inner dimensions: `T[n1][n2]...[nk]` steps by `n2*...*nk` elements in dimension 1 -/
+def dimsProd : List Nat → Nat
+  | [] => 1
+  | n :: ns => n * dimsProd ns
+
+/-- arrays of any rank: `operator[]` is applied once per dimension, each application checked against ITS
+extent (`std::extent_v<T, 0>` of the array type at that level) and stepping by whole sub-arrays -/
+def indexMulti (idx : IntTy) : List Int → List Nat → Nat → Nat → Option Nat
+  | [], [], _, base => some base
+  | i :: is, n :: ns, s, base =>
+      (indexArr idx i n (dimsProd ns * s) base).bind fun r => indexMulti idx is ns s r
+  | _, _, _, _ => none
+
+/-- row-major flat index of an index vector -/
+def flatIdx : List Int → List Nat → Nat
+  | i :: is, _ :: ns => i.toNat * dimsProd ns + flatIdx is ns
+  | _, _ => 0
+
+/-- every index lies inside its own dimension (and the ranks agree) -/
+def allInside : List Int → List Nat → Prop
+  | [], [] => True
+  | i :: is, n :: ns => (0 ≤ i ∧ i < (n : Int)) ∧ allInside is ns
+  | _, _ => False
+
 end Rlbox
